@@ -54,7 +54,7 @@ SA(offsetof(struct ec_backend_common, id) == 0 && offsetof(struct ec_backend_com
 SA(offsetof(struct ec_backend_op_stubs, init) == 0 && offsetof(struct ec_backend_op_stubs, exit) == 8 &&
    offsetof(struct ec_backend_op_stubs, encode) == 16 && offsetof(struct ec_backend_op_stubs, decode) == 24 &&
    offsetof(struct ec_backend_op_stubs, fragments_needed) == 32 && offsetof(struct ec_backend_op_stubs, reconstruct) == 40 &&
-   offsetof(struct ec_backend_op_stubs, element_size) == 48, "op stubs layout");
+   offsetof(struct ec_backend_op_stubs, element_size) == 48 && offsetof(struct ec_backend_op_stubs, is_compatible_with) == 56, "op stubs layout");
 
 /* guarded hook points used by harness/h_sched.cpp (only when the tree carries the hooks) */
 #if defined(LIBERASURECODE_VERIF) && defined(__has_include)
